@@ -141,9 +141,14 @@ func dumpReq(d dump, p string, r *protocol.Request, rs bool) {
 	d.put(p+"mp.boundary", r.MultipartFormBoundary())
 	d.put(p+"mp.files", len(r.MultipartFiles()))
 	d.put(p+"mp.fields", len(r.MultipartFields()))
-	d.put(p+"mp.flags", r.HasMultipartForm(), r.OnlyMultipartForm())
+	// X06: only whether a parsed form is there; whether the body bytes are kept next to it (OnlyMultipartForm) is storage
+	d.put(p+"mp.flags", r.HasMultipartForm())
 	d.put(p+"bodyStream.is", r.IsBodyStream())
-	d.put(p+"bodyBytes", r.BodyBytes())
+	if r.HasMultipartForm() { // X06: the raw buffer of a request whose form is parsed may hold the serialised form or nothing
+		d.put(p+"bodyBytes", "multipart")
+	} else {
+		d.put(p+"bodyBytes", r.BodyBytes())
+	}
 	dumpArgs(d, p+"postArgs", r.PostArgs())
 	d.put(p+"postArgString", r.PostArgString())
 	mf, err := r.MultipartForm()
@@ -178,10 +183,10 @@ func dumpReq(d dump, p string, r *protocol.Request, rs bool) {
 	}
 }
 
-// canonBody: a request that holds only the parsed multipart form serialises it anew, in map order, on every
-// Body() call: the lines are sorted so that two looks at the same form give the same value.
+// canonBody: a request whose multipart form is parsed serialises the form anew, in map order, on every Body() call
+// when it keeps no body bytes: the lines are sorted so that two looks at the same form give the same value.
 func canonBody(r *protocol.Request, b []byte) string {
-	if !r.OnlyMultipartForm() {
+	if !r.HasMultipartForm() {
 		return string(b)
 	}
 	lines := strings.Split(string(b), "\r\n")
@@ -338,4 +343,3 @@ func dumpOnce(ctx *app.RequestContext, rs bool) dump {
 	dumpResp(d, "resp.", &ctx.Response, rs)
 	return d
 }
-
